@@ -157,6 +157,9 @@ def main(argv=None):
         for k in range(0, len(hx), 8):
             nt.add(hx[k : k + 8])
         nt_overflow += r.get("nt_overflow", 0)
+        for note in (r.get("notes") or [])[:3]:
+            if r.get("status") == "ok" and len(extra.setdefault("notes", [])) < 6:
+                extra["notes"].append(str(note)[:400])
         for k, v in (r.get("extra") or {}).items():
             if v not in extra.setdefault(k, []):
                 extra[k].append(v)
@@ -189,6 +192,25 @@ def main(argv=None):
                 if k != key and k not in open_keys and k not in violations:
                     violations[k] = {"key": k, "what": what, "witness": e["witness"]}
                     vcounts[k] += 1
+    # regression list: witnesses of repaired findings are replayed; a returning defect is a VIOLATION
+    regress = 0
+    for e in known:
+        if e.get("status") != "fixed":
+            continue
+        from vf.common import import_sansldap, unjson
+
+        import_sansldap()
+        try:
+            found = mod.replay(unjson(e["witness"]))
+            regress += 1
+        except Exception as ex:
+            problems.append(f"fixed finding {e['key']}: replay raised {type(ex).__name__}: {ex}")
+            continue
+        for k, what in found:
+            if k not in open_keys and k not in violations:
+                violations[k] = {"key": k, "what": what + " [witness of a repaired finding fails again]", "witness": e["witness"]}
+                vcounts[k] += 1
+    counters["regression-witnesses-replayed"] = regress
     new = {k: v for k, v in violations.items() if k not in open_keys}
 
     # ---- gating
